@@ -130,6 +130,12 @@ where
 
         // 1. Computing the matrix dimensions.
         let (n_rows, n_cols) = param.compute_dimensions(coeffs.len());
+        assert!(
+            coeffs.len() <= n_rows * n_cols,
+            "The polynomial has {} coefficients, but the parameters only support {}",
+            coeffs.len(),
+            n_rows * n_cols
+        );
 
         // padding the coefficient vector with zeroes
         coeffs.resize(n_rows * n_cols, F::zero());
